@@ -510,7 +510,7 @@ def write_evidence(mod, tier, seed, parts_result, wall, nviol, extra=None):
         'wall_s': round(wall, 2),
         'violations': nviol,
     }
-    d = os.path.join(VERIF, 'evidence')
+    d = os.environ.get('VERIF_EVIDENCE_DIR') or os.path.join(VERIF, 'evidence')
     os.makedirs(d, exist_ok=True)
     with open(os.path.join(d, f'{prop}.json'), 'w') as f:
         json.dump(ev, f, indent=1, ensure_ascii=True)
